@@ -21,7 +21,7 @@ TCall ==
           <<"C16.Classified", e.code = Exp[1], "the helper classified the outcome differently from the DA interface's meaning">>,
           <<"C16.SubmittedCount", e.op = "submit" => e.count = Exp[2] /\ e.sent = (IF e.nb > 0 /\ e.fit > 0 THEN e.fit ELSE 0),
               "submitted count is not the longest prefix that fits / the backing DA received a different number of blobs">>,
-          <<"C16.SameBlobs", (e.op = "fetch" /\ e.fault = "ok") => e.blobsok, "the blobs that came back are not the ones stored at that height">>,
+          <<"C16.SameBlobs", (e.op \in {"fetch", "get"} /\ e.fault = "ok") => e.blobsok, "the blobs that came back are not the ones stored at that height / asked for, one per id">>,
           <<"C16.ProxyEqualsDirect", (e.via = "proxy" /\ last.op = e.op) => (e.code = last.code /\ e.count = last.count /\ e.nblobs = last.nblobs),
               "direct and proxied call of the same case disagree">>
           >>, l, run)
